@@ -193,12 +193,26 @@ EvalOf(cells, ign, c, fuel, evalAbs) ==
 (* ---------------------------------------------------------------------- *)
 Kept(wb, ignore) == SelectSeq(wb.cells, LAMBDA c : c.sh \notin ignore)
 
+\* =SUM(name): the sum over the cells a defined name of the workbook stands for (numbers only, like SUM of a range)
+IsNameSum(wb, c) ==
+    /\ c.form.f = "fc" /\ Len(c.form.toks) = 3
+    /\ c.form.toks[1] = Lit("SUM(") /\ c.form.toks[3] = Lit(")") /\ c.form.toks[2].k = "lit"
+    /\ \E i \in 1..Len(wb.names) : wb.names[i].name = c.form.toks[2].s
+NameSum(wb, ign, c, evalAbs) ==
+    LET nm == wb.names[CHOOSE i \in 1..Len(wb.names) : wb.names[i].name = c.form.toks[2].s]
+        w == nm.c2 - nm.c1 + 1
+        h == nm.r2 - nm.r1 + 1
+    IN IF nm.sh \in ign \/ c.sh \in ign THEN Open
+       ELSE SumVals([k \in 1..(w * h) |->
+                       EvalCell(wb.cells, ign, nm.sh, nm.c1 + ((k - 1) % w), nm.r1 + ((k - 1) \div w), 3, evalAbs)], 1)
+
 Load(wb, ignore, evalAbs) ==
     LET kept == Kept(wb, ignore) IN
     [cells |-> [i \in 1..Len(kept) |->
                    LET lc == LoadCell(wb.cells, kept[i]) IN
                    [sh |-> lc.sh, addr |-> lc.addr, value |-> lc.value, formula |-> lc.formula,
-                    eval |-> EvalOf(wb.cells, ignore, kept[i], 4, evalAbs)]],
+                    eval |-> IF IsNameSum(wb, kept[i]) THEN NameSum(wb, ignore, kept[i], evalAbs)
+                             ELSE EvalOf(wb.cells, ignore, kept[i], 4, evalAbs)]],
      names |-> [i \in 1..Len(wb.names) |->
                    LET nm == wb.names[i] IN
                    LoadName(nm, nm.sh \in ignore, Stored(wb.cells, nm.sh, nm.c1, nm.r1))]]
